@@ -240,6 +240,9 @@ func (eng *Engine) Verify(fn *ssa.Function, spec *FuncSpec, tags map[string]bool
 				panic(fmt.Sprintf("%s:%d: call-site clause for %q never applied: no such call in %s (contract out of date?)", c.File, c.Line, c.Callee, res.Func))
 			}
 			if c.Kind == KAssertCall && !e.clauseHit[c] && e.wantClause(c) {
+				if strings.HasSuffix(strings.TrimSpace(c.Text), ":: false") {
+					continue // a prohibition ("no such call may exist here"): satisfied when there is none
+				}
 				if c.Overrides != "" || c.Label == "" {
 					panic(fmt.Sprintf("%s:%d: call-site clause for %q never applied: no such call in %s (contract out of date?)", c.File, c.Line, c.Callee, res.Func))
 				}
